@@ -1315,3 +1315,188 @@ func ruleRecordsIndex(c *Ctx) {
 	c.count("constant_record_indexes", n)
 	c.floor("constant indexes into result records", n, 15)
 }
+
+// ruleNilAndDeref (C13): `x == nil && x.f …` and `x != nil || x.f …` dereference x exactly when it
+// is nil (the usual slip when a validation `x == nil || bad(x.f)` is edited). Checked in every
+// package of the module that handles client data.
+func ruleNilAndDeref(c *Ctx) {
+	n := 0
+	for _, pk := range c.P.Roots {
+		if strings.Contains(pk.PkgPath, "/test") || strings.HasSuffix(pk.PkgPath, "/dst") || pk.PkgPath == pkgPb {
+			continue
+		}
+		info := pk.TypesInfo
+		for _, fd := range allFuncDecls(pk) {
+			if fd.Body == nil || isTestFile(c.P, fd.Pos()) {
+				continue
+			}
+			occ := 0
+			ast.Inspect(fd.Body, func(nd ast.Node) bool {
+				be, ok := nd.(*ast.BinaryExpr)
+				if !ok || (be.Op != token.LAND && be.Op != token.LOR) {
+					return true
+				}
+				// the left operand (possibly a chain of the same operator) tests some expression against nil
+				var tests []*ast.BinaryExpr
+				var collect func(e ast.Expr)
+				collect = func(e ast.Expr) {
+					e = ast.Unparen(e)
+					if b2, ok := e.(*ast.BinaryExpr); ok {
+						if b2.Op == be.Op {
+							collect(b2.X)
+							collect(b2.Y)
+							return
+						}
+						if (b2.Op == token.EQL || b2.Op == token.NEQ) && exprString(b2.Y) == "nil" {
+							tests = append(tests, b2)
+						}
+					}
+				}
+				collect(be.X)
+				for _, t := range tests {
+					// the test must make the right operand run when the value IS nil
+					if !((be.Op == token.LAND && t.Op == token.EQL) || (be.Op == token.LOR && t.Op == token.NEQ)) {
+						continue
+					}
+					if tv, ok := info.Types[t.X]; !ok || !isPointerLike(tv.Type) {
+						continue
+					}
+					subject := exprString(t.X)
+					deref := false
+					ast.Inspect(be.Y, func(x ast.Node) bool {
+						switch y := x.(type) {
+						case *ast.SelectorExpr:
+							if exprString(y.X) == subject {
+								if _, isMethod := info.Selections[y]; isMethod && info.Selections[y].Kind() == types.MethodVal {
+									return true // a method may accept a nil receiver
+								}
+								deref = true
+							}
+						case *ast.StarExpr:
+							if exprString(y.X) == subject {
+								deref = true
+							}
+						case *ast.IndexExpr:
+							if exprString(y.X) == subject {
+								if _, isMap := info.Types[y.X].Type.Underlying().(*types.Map); !isMap {
+									deref = true
+								}
+							}
+						}
+						return true
+					})
+					n++
+					if deref {
+						occ++
+						c.bad(fmt.Sprintf("nil-and-deref/%s.%s#%d", pk.Name, funcName(fd), occ), be.Pos(), subject+" is dereferenced in the operand that is evaluated exactly when "+subject+" is nil: "+exprString(be))
+					}
+				}
+				return true
+			})
+		}
+	}
+	c.count("nil_guard_conjunctions", n)
+	c.ok("nil-and-deref/scan", 0, fmt.Sprintf("%d nil-test conjunctions/disjunctions inspected", n))
+}
+
+func isPointerLike(t types.Type) bool {
+	switch t.Underlying().(type) {
+	case *types.Pointer, *types.Slice, *types.Map, *types.Interface:
+		return true
+	}
+	return false
+}
+
+// ruleZeroValueLocals (C15/C20): a local declared without a value (`var key *Key`) that is read but
+// never assigned (nor has its address taken) always holds the zero value: the request field or reply
+// member built from it is silently empty. In the front ends and the coroutines every such local has
+// at least one assignment.
+func ruleZeroValueLocals(c *Ctx) {
+	n := 0
+	for _, pp := range []string{pkgHttp, pkgGrpc, pkgSubApi, pkgCoroutines} {
+		pk := c.P.Pkg(pp)
+		if pk == nil {
+			continue
+		}
+		info := pk.TypesInfo
+		for _, fd := range allFuncDecls(pk) {
+			if fd.Body == nil || isTestFile(c.P, fd.Pos()) {
+				continue
+			}
+			declared := map[types.Object]*ast.Ident{}
+			ast.Inspect(fd.Body, func(x ast.Node) bool {
+				if ds, ok := x.(*ast.DeclStmt); ok {
+					if gd, ok := ds.Decl.(*ast.GenDecl); ok && gd.Tok == token.VAR {
+						for _, sp := range gd.Specs {
+							if vs, ok := sp.(*ast.ValueSpec); ok && len(vs.Values) == 0 {
+								for _, nm := range vs.Names {
+									if nm.Name != "_" {
+										declared[info.Defs[nm]] = nm
+									}
+								}
+							}
+						}
+					}
+				}
+				return true
+			})
+			if len(declared) == 0 {
+				continue
+			}
+			assigned, read := map[types.Object]bool{}, map[types.Object]bool{}
+			ast.Inspect(fd.Body, func(x ast.Node) bool {
+				switch y := x.(type) {
+				case *ast.AssignStmt:
+					for _, l := range y.Lhs {
+						// x = …, x.f = …, x[i] = … all give the variable content
+						e := ast.Unparen(l)
+						for {
+							switch z := e.(type) {
+							case *ast.SelectorExpr:
+								e = ast.Unparen(z.X)
+								continue
+							case *ast.IndexExpr:
+								e = ast.Unparen(z.X)
+								continue
+							}
+							break
+						}
+						if id, ok := e.(*ast.Ident); ok {
+							assigned[info.Uses[id]] = true
+						}
+					}
+				case *ast.UnaryExpr:
+					if y.Op == token.AND {
+						if id, ok := ast.Unparen(y.X).(*ast.Ident); ok {
+							assigned[info.Uses[id]] = true
+						}
+					}
+				case *ast.RangeStmt:
+					for _, kv := range []ast.Expr{y.Key, y.Value} {
+						if id, ok := kv.(*ast.Ident); ok {
+							assigned[info.Uses[id]] = true
+						}
+					}
+				case *ast.IncDecStmt:
+					if id, ok := ast.Unparen(y.X).(*ast.Ident); ok {
+						assigned[info.Uses[id]] = true
+					}
+				case *ast.Ident:
+					if o := info.Uses[y]; o != nil && declared[o] != nil {
+						read[o] = true
+					}
+				}
+				return true
+			})
+			for o, id := range declared {
+				if !read[o] {
+					continue
+				}
+				n++
+				c.check(assigned[o], fmt.Sprintf("zero-value-local/%s.%s/%s", pk.Name, funcName(fd), id.Name), id.Pos(), "assigned somewhere", "the local "+id.Name+" is declared without a value, read, and never assigned: whatever is built from it (a request field, a reply member) is always empty")
+			}
+		}
+	}
+	c.count("valueless_locals", n)
+	c.floor("locals declared without a value", n, 20)
+}
